@@ -69,6 +69,31 @@ pub fn decode_first_prefill(file: &[u8], prefill: u8) -> Result<Decoded, String>
     }
 }
 
+/// identity decode of a non-interlaced first image row by row with `read_row`, each time into a buffer 1..7 bytes longer than a line and
+/// filled with 0xA5; Err if a call fails or panics, or if a byte behind the row was changed
+fn decode_rows_roomy(file: &[u8], rb: usize, h: usize) -> Result<Vec<u8>, String> {
+    let file = file.to_vec();
+    match guarded(move || -> Result<Vec<u8>, String> {
+        let mut reader = png::Decoder::new(Cursor::new(file)).read_info().map_err(|e| format!("read_info: {}", e))?;
+        let mut out = Vec::with_capacity(rb * h);
+        for y in 0..h {
+            let mut buf = vec![0xA5u8; rb + 1 + y % 7];
+            match reader.read_row(&mut buf).map_err(|e| format!("read_row: {}", e))? {
+                None => return Err(format!("read_row: no row {} of {}", y, h)),
+                Some(_) => {}
+            }
+            if buf[rb..].iter().any(|&b| b != 0xA5) {
+                return Err(format!("read_row: bytes behind row {} were written", y));
+            }
+            out.extend_from_slice(&buf[..rb]);
+        }
+        Ok(out)
+    }) {
+        Ok(r) => r,
+        Err(p) => Err(format!("PANIC {}", p)),
+    }
+}
+
 fn describe(s: &Still, nchunks: usize, used: &[u8]) -> J {
     J::obj()
         .set("color", J::i(s.img.color))
@@ -123,6 +148,21 @@ pub fn judge(file: &[u8], want: &Img, interlace: bool, model_ans: Option<&str>) 
         let at = got.pixels.iter().zip(&want.pixels).position(|(a, b)| a != b).unwrap_or(got.pixels.len().min(want.pixels.len()));
         return Some(("oracle", format!("pixels/{}", tag), format!(
             "decoded pixels differ from the specification's reconstruction at byte {} (row {}, byte {} of the row)", at, at / rb.max(1), at % rb.max(1))));
+    }
+    if !interlace {
+        // the same image row by row through `read_row` with a buffer that is LONGER than a line ("needs to be long enough"): each row is the
+        // specification's and nothing behind it is touched
+        match decode_rows_roomy(file, rb, want.h as usize) {
+            Err(e) => {
+                let k = if e.starts_with("PANIC") { "panic" } else { "error" };
+                return Some(("oracle", format!("decode-{}/{}/read_row", k, tag), format!("well-formed file rejected row by row through read_row with a buffer longer than a line: {}", e)));
+            }
+            Ok(px) => {
+                if px != want.pixels {
+                    return Some(("oracle", format!("pixels/{}/read_row", tag), "rows delivered by read_row into a buffer longer than a line differ from the specification's reconstruction (or bytes behind the row were written)".to_string()));
+                }
+            }
+        }
     }
     if interlace && want.bits_pp() < 8 {
         // a buffer that is not zeroed: every pixel bit is the specification's; only the padding bits behind the last pixel of a
